@@ -193,6 +193,13 @@ func (enc Encryptor) EncryptNew(pt *Plaintext) (ct *Ciphertext, err error) {
 // encryption of zero is sampled in QP before being rescaled by P; otherwise, it is directly sampled in Q.
 // The zero encryption is generated according to the given [Ciphertext] [MetaData].
 func (enc Encryptor) EncryptZero(ct interface{}) (err error) {
+
+	// A fresh encryption has degree at most 1: a reused receiver of higher degree must not
+	// keep its previous components (and is not to be taken for a receiver of degree 0).
+	if cti, isCt := ct.(*Ciphertext); isCt && cti.Degree() > 1 {
+		cti.Resize(1, cti.Level())
+	}
+
 	switch key := enc.encKey.(type) {
 	case *SecretKey:
 		return enc.encryptZeroSk(key, ct)
